@@ -20,7 +20,8 @@ RULE = ("triples of diagrams with 0..N points (N=60 quick, 300 thorough; sizes 0
 ASSUMPTIONS = ["laws on the real code are compared with tolerance 1e-9*scale (bottleneck) / 1e-9*scale*(n+1) (Wasserstein; was 1e-6 before the /repo fix of "
                "sklearn's expanded Euclidean formula, repaired in wasserstein.py)",
                "the theorems are about the specification values; that the code computes them is C01/C02"]
-PROP_FILES = ["PersimVerif/Props/C07.lean", "PersimVerif/Lemmas/MatchingLaws.lean", "PersimVerif/Lemmas/PermEquiv.lean"]
+PROP_FILES = ["PersimVerif/Props/C07.lean", "PersimVerif/Props/C07Model.lean", "PersimVerif/Lemmas/MatchingLaws.lean",
+              "PersimVerif/Lemmas/PermEquiv.lean"]
 
 
 def A(d):
@@ -212,7 +213,9 @@ MANIFEST = {
             "for diagrams of ANY size — symmetry, non-negativity, zero on reorderings, invariance under added diagonal points and "
             "diagonal translation, linear scaling, the value against the empty diagram, bottleneck <= Wasserstein, and BOTH triangle "
             "inequalities (composition of partial matchings) — first for arbitrary cost systems with a pseudo-metric pair cost and a "
-            "1-Lipschitz diagonal cost, then instantiated with (L-inf,(d-b)/2) and (Euclid,(d-b)/sqrt2) over the reals. That the code's "
+            "1-Lipschitz diagonal cost, then instantiated with (L-inf,(d-b)/2) and (Euclid,(d-b)/sqrt2) over the reals, and finally "
+            "composed with the C01/C02 main theorems (Props/C07Model.lean) into laws about what the MODELS of persim.bottleneck / "
+            "persim.wasserstein return, for any two oracles/solvers (so across hash seeds): symmetry, triangle, non-negativity. That the code's "
             "values ARE the specification values is C01/C02; their correspondence is repeated here at sizes up to 150+150 with "
             "certified optima, and the laws are also run on the real code on triples of up to 300 points under several hash seeds.",
     "note": "Trusted: Lean kernel + Mathlib (propext/Classical.choice/Quot.sound); C01/C02 for 'code value = specification value' "
